@@ -14,7 +14,7 @@ use std::sync::Mutex;
 
 pub const PROP: &str = "C12";
 
-pub const CONTENTS: [&str; 6] = [
+pub const CONTENTS: [&str; 7] = [
     "package p;\nimport p.B;\ninterface A {\n  void f(B b);\n}\n",
     "package p; parcelable B { int x; }",
     "package p; enum B { X, Y }",
@@ -23,8 +23,34 @@ pub const CONTENTS: [&str; 6] = [
     "package p;\r\nimport p.B;\r\ninterface A {\r\n  void f(B b);\r\n}\r\n",
     // starts with a byte order mark (on disk as bom.aidl): no tree
     "\u{feff}package p; parcelable B { int x; }",
+    // placeholder for the long file (on disk as big.aidl); the real text is `big_text()`
+    "",
 ];
-const IDS: [&str; 6] = ["a.aidl", "b.aidl", "m.aidl", "bad.aidl", "sub", "bom.aidl"];
+const IDS: [&str; 7] = ["a.aidl", "b.aidl", "m.aidl", "bad.aidl", "sub", "bom.aidl", "big.aidl"];
+
+/// > 2 KiB, with two- and three-byte characters at both byte parities, so that some of them
+/// straddle every 512-byte boundary
+pub fn big_text() -> &'static str {
+    static T: std::sync::OnceLock<String> = std::sync::OnceLock::new();
+    T.get_or_init(|| {
+        let mut t = String::from("package big;\n");
+        t.push_str(&format!("// {}\n", "é".repeat(300)));
+        t.push_str(&format!("//  {}\n", "é".repeat(300)));
+        t.push_str(&format!("/* {} */\n", "日本".repeat(120)));
+        t.push_str("parcelable Big { String s = \"");
+        t.push_str(&"ß日".repeat(100));
+        t.push_str("\"; }\n");
+        t
+    })
+}
+
+fn content(c: usize) -> &'static str {
+    if c == 6 {
+        big_text()
+    } else {
+        CONTENTS[c]
+    }
+}
 
 #[derive(Clone, Copy, Debug, PartialEq, Eq, Hash, PartialOrd, Ord)]
 pub enum Op {
@@ -70,6 +96,7 @@ fn disk_content(id: usize) -> Option<usize> {
         0 => Some(0),
         1 => Some(2),
         5 => Some(5),
+        6 => Some(6),
         _ => None,
     }
 }
@@ -82,10 +109,10 @@ pub fn alphabet_a() -> Vec<Op> {
         }
     }
     v.push(Op::Add(3, 1));
-    for id in 0..6 {
+    for id in 0..7 {
         v.push(Op::AddFile(id));
     }
-    for id in [0usize, 1, 2, 3, 5] {
+    for id in [0usize, 1, 2, 3, 5, 6] {
         v.push(Op::Remove(id));
     }
     v.push(Op::Validate);
@@ -150,6 +177,7 @@ impl Env {
         std::fs::write(dir.join("a.aidl"), CONTENTS[0]).unwrap();
         std::fs::write(dir.join("b.aidl"), CONTENTS[2]).unwrap();
         std::fs::write(dir.join("bom.aidl"), CONTENTS[5]).unwrap();
+        std::fs::write(dir.join("big.aidl"), big_text()).unwrap();
         std::fs::write(dir.join("bad.aidl"), [0x70u8, 0x61, 0xff, 0xfe, 0x80]).unwrap();
         Env { dir }
     }
@@ -164,7 +192,7 @@ impl Env {
     fn apply(&self, p: &mut Parser<PathBuf>, op: Op) -> Option<bool> {
         match op {
             Op::Add(i, c) => {
-                p.add_content(self.path(i), CONTENTS[c]);
+                p.add_content(self.path(i), content(c));
                 None
             }
             Op::AddFile(i) => Some(p.add_file(self.path(i)).is_err()),
@@ -181,7 +209,7 @@ impl Env {
     fn fresh(&self, a: &Abs) -> Parser<PathBuf> {
         let mut p = Parser::new();
         for (i, c) in a {
-            p.add_content(self.path(*i), CONTENTS[*c]);
+            p.add_content(self.path(*i), content(*c));
         }
         p
     }
@@ -361,7 +389,7 @@ fn history_case(hist: &[Op]) -> Case {
         prop: PROP.into(),
         kind: format!("history-len{}", hist.len()),
         label: hist.iter().map(|o| o.text()).collect::<Vec<_>>().join("; "),
-        files: CONTENTS.iter().enumerate().map(|(i, c)| (format!("c{i}"), c.to_string())).collect(),
+        files: (0..CONTENTS.len()).map(|i| (format!("c{i}"), content(i).to_string())).collect(),
         expect: json!({"history": hist.iter().map(|o| o.to_json()).collect::<Vec<_>>()}),
     }
 }
@@ -510,7 +538,7 @@ pub fn run(tier: Tier, seed: u64) -> i32 {
     stats.sample(json!({"history": "add_content(a.aidl, c0); validate(); add_file(m.aidl) [missing -> Err]; add_content(a.aidl, c3)"}));
     finish(
         &stats,
-        "explicit-state exploration of operation histories on the real Parser<PathBuf>: alphabet A (28 operations: add_content 3 ids x 5 contents (one of them the CRLF twin of another) + one id that exists on disk as invalid UTF-8, add_file of three readable files (one under a non-canonical path, one starting with a byte order mark) / a missing file / a non-UTF-8 file / a directory, remove_content of 5 ids, validate), alphabet B (11 operations); full history trees from the empty parser to the stated depths and all suffixes of the stated length from every reachable abstract state; after every transition validate() of the live object is compared with validate() of a fresh parser loaded with the abstract id -> content map (trees by equality, diagnostics as position-sorted lists, id tags, add_file's error status); states = transitions executed (every node is checked), distinct_nontrivial = distinct abstract states reached",
+        "explicit-state exploration of operation histories on the real Parser<PathBuf>: alphabet A (30 operations: add_content 3 ids x 5 contents (one of them the CRLF twin of another) + one id that exists on disk as invalid UTF-8, add_file of four readable files (one under a non-canonical path, one starting with a byte order mark, one of 2 KiB with multi-byte characters across every 512-byte boundary) / a missing file / a non-UTF-8 file / a directory, remove_content of 5 ids, validate), alphabet B (11 operations); full history trees from the empty parser to the stated depths and all suffixes of the stated length from every reachable abstract state; after every transition validate() of the live object is compared with validate() of a fresh parser loaded with the abstract id -> content map (trees by equality, diagnostics as position-sorted lists, id tags, add_file's error status); states = transitions executed (every node is checked), distinct_nontrivial = distinct abstract states reached",
         &[
             "hook H4 (derive Clone on Parser) lets the explorer branch from a live object; every violation is re-confirmed by a from-scratch replay of the plain history without clones",
             "abstract states registering one key with two kinds (c1 and c2 together) are pruned (C11's business) and counted",
